@@ -172,7 +172,7 @@ class Spec:
 
 def gen_skeleton(rng, shift=0.0):
     import navis
-    f = F.gen_forest(rng, 4, 40, roots=1 if rng.random() < 0.8 else 2, lattice=False, zero_edges=False)
+    f = F.gen_forest(rng, 4, 40, roots=1 if rng.random() < 0.6 else int(rng.integers(2, 4)), lattice=False, zero_edges=False)
     if shift:
         f['xyz'] = [(a + shift, b, c) for a, b, c in f['xyz']]
     ids = f['ids']
@@ -293,6 +293,33 @@ def catalogue():
     add('TreeNeuron.prune_by_volume', 'sk', lambda x, p, i: x.prune_by_volume(p['v'], **kw(i)), lambda x, rng: dict(v=_box_around(x)))
     add('convert_units', ('sk', 'me', 'dp'), lambda x, p, i: x.convert_units('um', **kw(i)))
     add('rewire_skeleton', 'sk', lambda x, p, i: navis.rewire_skeleton(x, x.graph.to_undirected(), **kw(i)), lists=False)
+    add('subset_neuron(keep_disc_cn)', 'sk', lambda x, p, i: navis.subset_neuron(x, p['s'], keep_disc_cn=True, **kw(i)), lambda x, rng: dict(s=[v for v in ids(x) if rng.random() < 0.5] or ids(x)[:1]), lists=False)
+    add('subset_neuron(prevent_fragments)', 'sk', lambda x, p, i: navis.subset_neuron(x, p['s'], prevent_fragments=True, **kw(i)), lambda x, rng: dict(s=[v for v in ids(x) if rng.random() < 0.5] or ids(x)[:1]), lists=False)
+    # ---- parameterisations under which there is NOTHING TO DO: the result must still be a separate object ("if nothing changes: return x" slips)
+    add('noop:subset_neuron(all)', 'sk', lambda x, p, i: navis.subset_neuron(x, ids(x), **kw(i)), lists=False)
+    add('noop:prune_twigs(0)', 'sk', lambda x, p, i: navis.prune_twigs(x, 1e-9, **kw(i)))
+    add('noop:prune_by_strahler(none)', 'sk', lambda x, p, i: navis.prune_by_strahler(x, to_prune=[99], **kw(i)))
+    add('noop:prune_at_depth(inf)', 'sk', lambda x, p, i: navis.prune_at_depth(x, 1e9, **kw(i)))
+    add('noop:longest_neurite(all)', 'sk', lambda x, p, i: navis.longest_neurite(x, n=10 ** 6, **kw(i)))
+    add('noop:drop_fluff(keep all)', 'sk', lambda x, p, i: navis.drop_fluff(x, keep_size=0, **kw(i)))
+    add('noop:heal_skeleton(max_dist 0)', 'sk', lambda x, p, i: navis.heal_skeleton(x, max_dist=1e-9, **kw(i)))
+    add('noop:remove_nodes(none)', 'sk', lambda x, p, i: navis.remove_nodes(x, which=[], **kw(i)), lists=False)
+    add('noop:downsample(1)', 'sk', lambda x, p, i: navis.downsample_neuron(x, 1, **kw(i)))
+    add('noop:reroot(root)', 'sk', lambda x, p, i: navis.reroot_skeleton(x, int(x.root[0]), **kw(i)), lists=False)
+    add('noop:despike(huge sigma)', 'sk', lambda x, p, i: navis.despike_skeleton(x, sigma=1e9, **kw(i)))
+    add('noop:in_volume(all inside)', ('sk', 'dp', 'me'), lambda x, p, i: navis.in_volume(x, p['v'], **kw(i)), lambda x, rng: dict(v=_box_around(x, whole=True)))
+    add('noop:in_volume(OUT, all outside)', ('sk', 'dp', 'me'), lambda x, p, i: navis.in_volume(x, p['v'], mode='OUT', **kw(i)), lambda x, rng: dict(v=_box_around(x, whole=True, away=True)))
+    add('noop:in_volume(dict of volumes)', 'sk', lambda x, p, i: navis.in_volume(x, dict(a=p['v'], b=p['w'])), lambda x, rng: dict(v=_box_around(x, whole=True), w=_box_around(x)), inplace=False, lists=False)
+    add('noop:convert_units(same)', ('sk', 'me', 'dp'), lambda x, p, i: x.convert_units('nm', **kw(i)))
+    add('noop:mul(1)', ('sk', 'me', 'dp', 'vx'), lambda x, p, i: x * 1, inplace=False)
+    add('noop:add(0)', ('sk', 'me', 'dp', 'vx'), lambda x, p, i: x + 0, inplace=False)
+    add('noop:smooth_mesh(0 iterations)', 'me', lambda x, p, i: navis.smooth_mesh(x, iterations=0, backend='trimesh', **kw(i)))
+    add('noop:drop_fluff(mesh)', 'me', lambda x, p, i: navis.drop_fluff(x, keep_size=0, **kw(i)))
+    add('noop:subset_neuron(mesh all)', 'me', lambda x, p, i: navis.subset_neuron(x, np.arange(len(x.vertices)), **kw(i)), lists=False)
+    add('noop:subset_neuron(dotprops all)', 'dp', lambda x, p, i: navis.subset_neuron(x, np.arange(len(x.points)), **kw(i)), lists=False)
+    add('noop:Dotprops.downsample(1)', 'dp', lambda x, p, i: x.downsample(1, **kw(i)))
+    add('noop:VoxelNeuron.threshold(0)', 'vx', lambda x, p, i: x.threshold(0, **kw(i)))
+    add('noop:VoxelNeuron.strip', 'vx', lambda x, p, i: x.strip(**kw(i)))
     # arithmetic: the plain operator copies, the augmented one works in place
     def dunder(name, arg):
         def g(x):
@@ -383,13 +410,13 @@ def catalogue():
     return C
 
 
-def _box_around(x):
+def _box_around(x, whole=False, away=False):
     import navis
     import trimesh
     if hasattr(x, 'nodes') and not isinstance(x, navis.NeuronList):
         pts = x.nodes[['x', 'y', 'z']].values
     elif isinstance(x, navis.NeuronList):
-        return _box_around(x[0])
+        return _box_around(x[0], whole=whole, away=away)
     elif hasattr(x, 'points'):
         pts = np.asarray(x.points)
     else:
@@ -397,6 +424,10 @@ def _box_around(x):
     lo, hi = pts.min(axis=0) - 1, pts.max(axis=0) + 1
     mid = (lo + hi) / 2
     hi2 = hi.copy(); hi2[0] = mid[0] + 0.123
+    if whole:
+        lo, hi2 = lo - 500, hi + 500       # contains every neuron of the case (all are generated within a few hundred units)
+    if away:
+        lo, hi2 = lo + 5000, hi2 + 5000
     m = trimesh.creation.box(extents=hi2 - lo)
     m.apply_translation((hi2 + lo) / 2)
     return navis.Volume(m.vertices, m.faces, name='box')
